@@ -48,7 +48,7 @@ func C15(c *core.Ctx) error {
 	if !core.Quick(c.Tier) {
 		depth = 6
 	}
-	initials := []string{"empty", "vars", "preimport", "dstvars", "inpkg-empty", "inpkg-vars", "inpkg-dstvars", "inpkg-preimport"}
+	initials := []string{"empty", "vars", "preimport", "dstvars", "inpkg-empty", "inpkg-vars", "inpkg-dstvars", "inpkg-preimport", "latequal", "dupvars", "inpkg-latequal", "inpkg-dupvars"}
 	var mu sync.Mutex
 	var total c15Result
 	outcomes := 0
